@@ -125,11 +125,11 @@ for _n, _c in [('time_ts_plus_dur', 't + d is the chrono result or an error when
                     claim=_c, vars=None)
 
 ALL_UNITS = ['value_arith', 'value_cmp', 'value_coll', 'macros', 'preresolved', 'interp', 'interp_vm_g0', 'interp_vm_g1', 'interp_vm_g2', 'interp_vm_g3',
-             'interp_vm_g4', 'interp_vm_g5', 'interp_vm_g6', 'interp_vm_g7', 'builtins', 'wiring', 'parser', 'json', 'compprog', 'parser_expr', 'parser_unary', 'parser_match', 'scanner', 'tokenizer', 'parser_member', 'parser_matchx', 'parser_top', 'balance', 'semantics', 'bindctx']
+             'interp_vm_g4', 'interp_vm_g5', 'interp_vm_g6', 'interp_vm_g7', 'builtins', 'wiring', 'parser', 'json', 'compprog', 'parser_expr', 'parser_unary', 'parser_match', 'scanner', 'tokenizer', 'parser_member', 'parser_matchx', 'parser_top', 'balance', 'semantics', 'bindctx', 'strfuncs', 'uomconv']
 
 PROPS = {
     'C02': dict(
-        units=['parser', 'parser_expr', 'parser_unary', 'parser_member', 'parser_matchx', 'tokenizer', 'interp_vm_g1', 'interp_vm_g2', 'interp_vm_g3', 'interp_vm_g4', 'parser_top'],
+        units=['parser', 'parser_expr', 'parser_unary', 'parser_member', 'parser_matchx', 'tokenizer', 'interp_vm_g1', 'interp_vm_g2', 'interp_vm_g3', 'interp_vm_g4', 'parser_top', 'parser_match'],
         assumptions=['the Tokenizer trait is modelled by a ghost token sequence and a cursor (peek does not move, next advances by one)', 'the label counter does not overflow (2^32 labels)'],
         level_text="Every grammar level that has a parse function is proved, for every token sequence, to produce exactly the tree the CEL grammar defines: ?: loosest with a right-nesting else branch, ||, &&, the relations incl. in, + -, * / % (one next-tighter operand followed by a LEFT fold over (operator operand)*, exactly the operator set of the level), runs of ! / - applying to one member expression, postfix .name / (args) / [index] applied left to right, parentheses = the enclosed expression, match = scrutinee { case pattern: expr, ... }; the tokenizer's operator table, keyword table and whitespace skipping; the VM arm contracts fix the operand order. A failed obligation is reported as the violation.",
         not_covered=['that StringTokenizer as a whole refines the ghost token-stream model of the Tokenizer trait (peek does not move, next advances by one, location() = end of the last scanned token): assumed, so whitespace independence is proved only per token (leading whitespace is skipped and is not part of the token)', 'that an embedded f-string expression is tokenized like a top-level one (tokens_of is uninterpreted)', "each unit knows the next lower grammar level by contract only; parse_primary's and parse_match_pattern's results are additionally assumed to be functions of the tokens"],
@@ -141,13 +141,13 @@ PROPS = {
         not_covered=['integer literals above i64::MAX wrap instead of being rejected (known, unrepaired: the repair needs a negative-literal rule so that -9223372036854775808 stays expressible; no obligation is stated for that range)', 'f-string segmentation ({ } handling) beyond "scanner stays well formed"; the dispatch from the first character to the literal sub-scanners (string / bytes / number) is only covered for operators, keywords and identifiers', 'what std computes: from_str_radix, str::parse::<f64> (correct rounding), char::from_u32, UTF-8 encoding are assumed'],
     ),
     'C17': dict(
-        units=['parser', 'compprog', 'parser_expr', 'parser_unary', 'parser_member', 'parser_matchx', 'parser_top', 'bindctx'],
+        units=['parser', 'compprog', 'parser_expr', 'parser_unary', 'parser_member', 'parser_matchx', 'parser_top', 'bindctx', 'parser_match'],
         assumptions=['ProgramDetails::union_from is set union (HashSet, std)'],
         level_text="The identifier set of every node built under contract is proved to be exactly the union of its children's sets plus, for an identifier primary, its own name: add_ident, the compile! sites of the binary levels, append_result / consume_child / from_children*, the ternary (all three operands), match (scrutinee, every pattern, every arm), index expressions, list literals, calls (receiver and every argument) and check_for_const (keeps the set).",
         not_covered=['filter_from_bindings / IdentFilterIter (BindContext::is_bound IS under contract: bound as a variable, function or macro)', 'variables bound by macros (v in [1].map(v, ..)) are reported as parameters: a superset, allowed by the statement'],
     ),
     'C18': dict(
-        units=['parser', 'parser_expr', 'parser_unary', 'parser_member', 'parser_matchx', 'scanner', 'tokenizer', 'parser_top'],
+        units=['parser', 'parser_expr', 'parser_unary', 'parser_member', 'parser_matchx', 'scanner', 'tokenizer', 'parser_top', 'parser_match'],
         assumptions=['SourceRange::surrounding is the hull (min of starts, max of ends; derive(Ord) on SourceLocation)'],
         level_text="The span of every node built under contract is proved to be exactly the hull of its operands' / delimiters' spans (binary levels, ternary, unary runs, postfix chain, call, index, parentheses, list literal, match, literals and identifiers = the token span); SourceRange::surrounding is proved to be the smallest containing span (lemmas); a token's span runs from the scanner position after the leading whitespace to the position after its last character; line / column bookkeeping counts characters and resets on newline; tokenizer syntax errors carry the scanner position.",
         not_covered=['re-compiling the spanned text yields the same subtree; sibling disjointness (not stated as lemmas)', "syntax-error locations produced by the parser (only the tokenizer's are under contract)", 'match pattern spans (excluded by the property)', 'that StringTokenizer refines the ghost Tokenizer model'],
@@ -160,6 +160,7 @@ PROPS = {
     ),
     'C01': dict(
         units=ALL_UNITS, safety_only=True,
+        mechanism_clauses=['too_deep_is_an_error', 'continues_the_callers_depth', 'the_body_runs_at_the_callers_depth'],
         kani_quick=[],
         kani_thorough=ARITH_FAST + CONV + MATH,
         level_text='Totality is the conjunction of the safety obligations of every function under contract: for each of them Verus proves, for all inputs satisfying its precondition, no arithmetic overflow, no division by zero, every index in bounds, every unwrap/expect on Some/Ok, every panic!/unreachable! unreachable, and that each call site establishes its callee\'s precondition. The claim covers exactly the functions listed in the evidence (value operators, comparisons, indexing, macros, the VM loop and stack, label resolution, numeric built-ins through Kani); it is not a whole-program claim.',
@@ -169,19 +170,19 @@ PROPS = {
         assumptions=['Debug / Display formatting of values inside error messages does not panic'],
     ),
     'C16': dict(
-        units=['wiring', 'value_arith', 'value_cmp'],
+        units=['wiring', 'value_arith', 'value_cmp', 'uomconv'],
         kani_quick=[],
         kani_thorough=['time_dur_plus_minus_dur'],   # the five timestamp harnesses (kani/cel_value.rs) do not finish within 40 min of CBMC on chrono's checked_add_signed: not registered
-        not_covered=['calendar correctness per IANA zone and DST (chrono / chrono-tz tables, external data)', 'uomConvert (uom internals, floating point chains)',
+        not_covered=['calendar correctness per IANA zone and DST (chrono / chrono-tz tables, external data)', 'uomConvert: what the uom crate computes (its factors, floating point chains) and the name table Unit::from_str (a string match Verus does not take): assumed; which uom unit each CEL unit stands for, the direction of the conversion, the stone factor and the failure for unknown / incompatible units ARE under contract (unit uomconv)',
                      'timestamp arithmetic is proved over an uninterpreted chrono model (representability = chrono\'s checked_* result); only duration + / - runs the real chrono code under Kani (thorough tier): the five timestamp harnesses exceed 40 min of CBMC each (tool limit) and are not registered'],
         assumptions=['chrono checked_add_signed / checked_sub_signed / Duration::checked_add / checked_sub return None exactly when the result is not representable'],
     ),
     'C15': dict(
-        units=['wiring'],
+        units=['wiring', 'strfuncs'],
         kani_quick=MATH,
         kani_thorough=[],
         not_covered=['the algebra of split/join, trim*, replace, regex semantics: properties of std / regex, not of any rscel function (assumed)',
-                     'replace/remove/trim*/toLower/toUpper/splitWhiteSpace/matches* wrappers and the arity/type rejection of the #[dispatch] entry points (not under contract)',
+                     'matchCaptures (iterator adapters over regex captures) and the arity/type rejection of the #[dispatch] entry points (generated by the proc macro): not under contract; replace/remove/trim*/toLower/toUpper/splitWhiteSpace/matches/matchReplace* ARE (unit strfuncs: which std / regex function on which argument, invalid pattern = error; toLower..trimEnd after mechanical expansion of string_func!)',
                      'pow: not decided (CBMC does not terminate on checked_pow; no Verus contract): only read + fixed (F3)'],
         assumptions=[],
     ),
@@ -201,12 +202,12 @@ PROPS = {
         assumptions=['ScopedCounter RAII (the increment is undone on scope exit)'],
     ),
     'C10': dict(
-        units=['preresolved', 'interp', 'interp_vm_g0', 'compprog', 'parser_expr', 'parser_unary', 'parser_match', 'parser_member', 'parser_matchx', 'parser_top', 'balance'],
+        units=['preresolved', 'interp', 'interp_vm_g0', 'compprog', 'parser_expr', 'parser_unary', 'parser_match', 'parser_member', 'parser_matchx', 'parser_top', 'balance', 'parser'],
         assumptions=['HashMap<u32,usize> semantics (vstd)', 'locations[&label] rewritten to *locations.get(&label).unwrap() (std defines Index that way)'],
         not_covered=['the inductions that chain the balance step lemmas (unit balance) along the token stream: the step lemmas are proved and the parse loops are proved to emit exactly the step templates, the induction connecting the two is not stated; call / list / map / access / type-pattern code is not covered by a balance lemma', "that the opcode stack effects restated in unit balance agree with the VM arm contracts; that the compiler's labels satisfy resolve()'s precondition (unique, defined): assumed", 'PreResolvedByteCode::extend / push / FromIterator (generic IntoIterator loops): assumed'],
     ),
     'C06': dict(
-        units=['value_coll', 'value_arith', 'interp_vm_g4', 'interp_vm_g5', 'interp_vm_g6', 'interp_vm_g7', 'wiring', 'parser_member', 'compprog'],
+        units=['value_coll', 'value_arith', 'interp_vm_g4', 'interp_vm_g5', 'interp_vm_g6', 'interp_vm_g7', 'wiring', 'parser_member', 'compprog', 'parser_unary'],
         assumptions=['HashMap<String,_> key model (axiom), Vec<CelValue>.len() <= isize::MAX (allocation limit)'],
         not_covered=['the map-literal resolver closure (folded maps): assumed; the map literal arm itself, the VM MkDict arm and from_children_w_bytecode ARE under contract', 'list membership is stated over PartialEq for CelValue, whose own structural impl is outside this unit'],
     ),
@@ -217,8 +218,8 @@ PROPS = {
         assumptions=['CelValue::clone is the identity on the abstract value (derive(Clone))', 'Vec<CelValue> -> CelValue::List conversion is element-wise identity (std blanket Into)'],
     ),
     'C08': dict(
-        units=['macros'],
-        not_covered=['where Binding/Attribute errors originate (InterpStack::pop, index/access): unit interp / value_coll'],
+        units=['macros', 'value_coll', 'interp'],
+        not_covered=['the VM arms between the macro and the error origins (Access / Index arms: units interp_vm_g4 / g7, checked under C06): the origins themselves (InterpStack::pop -> unbound-variable error, index / access -> absent-field error) are in units interp / value_coll and are part of this check'],
         assumptions=[],
     ),
     'C04': dict(
@@ -229,12 +230,12 @@ PROPS = {
         assumptions=['sort: the comparator is ord; that slice::sort_by with a total order returns an ordered permutation is std\'s contract (not under contract here)'],
     ),
     'C05': dict(
-        units=['value_cmp', 'value_arith', 'interp_vm_g0', 'interp_vm_g1', 'parser', 'parser_expr', 'parser_match', 'parser_matchx', 'balance', 'semantics'],
+        units=['value_cmp', 'value_arith', 'interp_vm_g0', 'interp_vm_g1', 'parser', 'parser_expr', 'parser_match', 'parser_matchx', 'balance', 'semantics', 'compprog', 'interp'],
         assumptions=[],
         not_covered=['unit semantics proves what the pinned templates COMPUTE (ternary: exactly one clause, chosen by truthiness, a failed condition is the result; ||: right operand skipped exactly when the left is truthy; &&: skipped exactly when the left is falsy or fails; match: only the first matching arm, null otherwise) for operand blocks that are single PUSH instructions and, for match, two comparison cases; lifting to arbitrary balanced operand blocks (unit balance) and to chains / any number of cases is not machine-checked', 'the small-step interpreter of unit semantics restates the VM arms (Test, Dup, Pop, Not, Or, And, Jmp, JmpCond) proved in units interp_vm_g0 / g1; their agreement is by inspection'],
     ),
     'C03': dict(
-        units=['value_arith'],
+        units=['value_arith', 'interp_vm_g0'],
         kani_quick=[],
         kani_thorough=ARITH_FAST,
         twins={
